@@ -4,7 +4,7 @@ import ast
 
 from ..cfg import cfg_of
 from ..core import (
-    cond_facts,
+    cond_facts, enclosing_func,
     ancestors, assigns_to, body_walk, call_attr, call_name, calls_in, const_value, dotted, enclosing_stmt, is_const, kwarg,
     nodes_of_type, parent, stores_to, unparse, walk_local, names_in, param_names,
 )
@@ -430,6 +430,48 @@ def reduce(ctx):
                   "this make_memmap call can receive mode 'w+': re-opening the file in the worker truncates and zeroes the parent's data")
     ast_ = [c for c in calls_in(tgt) if call_name(c) == "as_strided"]
     ctx.check(bool(ast_) and dotted(kwarg(ast_[0], "shape")) == "shape" and dotted(kwarg(ast_[0], "strides")) == "strides", ast_[0] if ast_ else tgt, "non-contiguous views are rebuilt with the original shape and strides")
+    # branch table of the reducer pair (each value chosen under its own flag)
+    gf_ = cfg_of(f)
+    for a_ in [x for x in nodes_of_type(f, ast.Assign) if "order" in stores_to(x)]:
+        fc = cond_facts(gf_.conditions_at(gf_.nodes_of(a_)))
+        v_ = const_value(a_.value)
+        ctx.check((v_ == "F" and fc == [("m.flags['F_CONTIGUOUS']", True)]) or (v_ == "C" and fc == [("m.flags['F_CONTIGUOUS']", False)]), a_, "order=%r exactly when the backing memmap %s Fortran-contiguous" % (v_, "is" if v_ == "F" else "is not"),
+                  "order=%r is chosen under %s" % (v_, fc))
+    for a_ in [x for x in nodes_of_type(f, ast.Assign) if "strides" in stores_to(x)]:
+        fc = cond_facts(gf_.conditions_at(gf_.nodes_of(a_)))
+        contiguous = {("a.flags['F_CONTIGUOUS']", False), ("a.flags['C_CONTIGUOUS']", False)}
+        if is_const(a_.value, None):
+            ctx.check(fc == [("a.flags['F_CONTIGUOUS'] or a.flags['C_CONTIGUOUS']", True)], a_, "no strides are shipped only for a contiguous view", "strides=None is chosen under %s: a non-contiguous view is rebuilt as a contiguous block (wrong elements)" % fc)
+        else:
+            ctx.check(unparse(a_.value) == "a.strides" and set(fc) == contiguous, a_, "a non-contiguous view ships its own strides", "strides=%s is chosen under %s" % (unparse(a_.value), fc))
+    tb = [x for x in nodes_of_type(f, ast.Assign) if "total_buffer_len" in stores_to(x) and not is_const(x.value, None)]
+    ctx.check(bool(tb) and unparse(tb[0].value) == "(a_end - a_start) // a.itemsize", tb[0] if tb else f, "the enclosing buffer spans the view's byte bounds, in items")
+    gt0 = cfg_of(tgt)
+    for rt_ in nodes_of_type(tgt, ast.Return):
+        fc = cond_facts(gt0.conditions_at(gt0.nodes_of(rt_)))
+        strided = isinstance(rt_.value, ast.Call) and call_name(rt_.value) == "as_strided"
+        ctx.check(fc == [("strides is None", not strided)], rt_, "%s exactly when strides %s given" % ("as_strided view" if strided else "plain memmap", "are" if strided else "are not"),
+                  "_strided_from_memmap returns %s under %s" % ("the strided view" if strided else "the plain memmap", fc))
+    bm = ctx.repo.func(MR, "_get_backing_memmap")
+    gb = cfg_of(bm)
+    for rt_ in nodes_of_type(bm, ast.Return):
+        fc = cond_facts(gb.conditions_at(gb.nodes_of(rt_)))
+        v_ = unparse(rt_.value)
+        if v_ == "None":
+            ctx.check(fc == [("b is None", True)], rt_, "no base => not memmap-backed", "_get_backing_memmap returns None under %s" % fc)
+        elif v_ == bm.args.args[0].arg:
+            ctx.check(("isinstance(b, mmap)", True) in fc and ("b is None", False) in fc, rt_, "base is a raw mmap => the array itself is the memmap", "_get_backing_memmap returns the array itself under %s" % fc)
+        else:
+            ctx.check(v_ == "_get_backing_memmap(b)" and ("isinstance(b, mmap)", False) in fc, rt_, "otherwise the base chain is followed", "_get_backing_memmap returns %s under %s" % (v_, fc))
+    bw = ctx.repo.func(MR, "reduce_array_memmap_backward")
+    gw_ = cfg_of(bw)
+    for rt_ in nodes_of_type(bw, ast.Return):
+        fc = cond_facts(gw_.conditions_at(gw_.nodes_of(rt_)))
+        if isinstance(rt_.value, ast.Call) and call_name(rt_.value) == "_reduce_memmap_backed":
+            ctx.check(set(fc) == {("isinstance(m, np.memmap)", True), ("m.filename in JOBLIB_MMAPS", False)} or set(fc) == {("isinstance(m, np.memmap)", True), ("m.filename not in JOBLIB_MMAPS", True)}, rt_,
+                      "a worker result backed by a user's memmap file is sent back as a reference to that file", "the by-reference reduction is chosen under %s" % fc)
+        else:
+            ctx.check("np.asarray(a)" in unparse(rt_.value, 300), rt_, "anything else (plain arrays, joblib's own temporary memmaps) is sent back by value")
     fw = ctx.repo.func(MR, "ArrayMemmapForwardReducer.__call__")
     lt = ctx.repo.func(NP, "load_temporary_memmap")
     rr = [r_ for r_ in nodes_of_type(fw, ast.Return) if isinstance(r_.value, ast.Tuple) and dotted(r_.value.elts[0]) == "load_temporary_memmap"]
@@ -480,17 +522,41 @@ def weakmap(ctx):
     g_ = ctx.repo.func(MR, "_WeakArrayKeyMap.get")
     gg = cfg_of(g_)
     rets = nodes_of_type(g_, ast.Return)
-    chk = [n for n in nodes_of_type(g_, ast.If) if "is not obj" in unparse(n.test) or "is obj" in unparse(n.test)]
-    ok = bool(chk) and any(isinstance(x, ast.Raise) and call_name(x.exc) == "KeyError" for x in chk[0].body) and all(gg.every_path_to(gg.nodes_of(r), gg.nodes_of(chk[0])) for r in rets)
-    ctx.check(ok, chk[0] if chk else g_, "get() returns a value only after checking that the weak reference still denotes the SAME object (else KeyError)",
-              "get() trusts id(obj): after the original array was collected, a new array with a recycled id is served the old array's memmap file (workers see another array's data)")
+    arg = g_.args.args[1].arg
+
+    def identity_guard(fn, g):
+        """an `if` raising KeyError exactly when the weak reference no longer denotes the looked-up object"""
+        out = []
+        for n in nodes_of_type(fn, ast.If):
+            for r in [x for x in walk_local(n) if isinstance(x, ast.Raise) and x.exc is not None and call_name(x.exc) == "KeyError"]:
+                facts = cond_facts([c_ for c_ in g.conditions_at(g.nodes_of(r)) if c_[0] is n])
+                if ("ref() is not %s" % arg, True) in facts or ("ref() is %s" % arg, False) in facts:
+                    out.append(n)
+        return out
+    chk = identity_guard(g_, gg)
+    id_ok = bool(chk) and all(gg.every_path_to(gg.nodes_of(r), gg.nodes_of_all(chk)) for r in rets)
     s_ = ctx.repo.func(MR, "_WeakArrayKeyMap.set")
     refs = [c for c in calls_in(s_) if call_name(c) == "weakref.ref"]
-    ok = bool(refs) and all(len(c.args) == 2 for c in refs)
-    ctx.check(ok, refs[0] if refs else s_, "set() registers a destructor callback that drops the entry when the array dies",
-              "set() keeps entries of dead arrays (weakref without callback): stale id -> file name entries accumulate and can be hit by recycled ids")
     cb = [n for n in nodes_of_type(s_, ast.FunctionDef)]
-    ctx.check(bool(cb) and any(isinstance(x, ast.Delete) and "self._data[key]" in unparse(x) for x in ast.walk(cb[0])), cb[0] if cb else s_, "the callback deletes exactly that key")
+    purge_ok = bool(refs) and all(len(c.args) == 2 and isinstance(c.args[1], ast.Name) and any(f_.name == c.args[1].id for f_ in cb) for c in refs) and \
+        bool(cb) and any(isinstance(x, ast.Delete) and "self._data[key]" in unparse(x) for x in ast.walk(cb[0]))
+    # either safeguard alone keeps a recycled id from being served another array's file (CPython runs the weakref
+    # callback before the id can be reused; with the identity test a stale entry is simply not believed): the clause is
+    # violated only when neither is in place
+    if id_ok and purge_ok:
+        ctx.ok(chk[0], "get() believes an entry only if its weak reference still denotes the SAME object, and set() purges the entry when the array dies")
+    elif id_ok or purge_ok:
+        ctx.ok(chk[0] if id_ok else refs[0], "one of the two safeguards against recycled ids is in place (%s); the other is gone" % ("identity test in get()" if id_ok else "purge on destruction"))
+    else:
+        ctx.bad(g_, "get() trusts id(obj) (no identity test, or an inverted one) and set() does not purge entries of dead arrays: after the original array was collected, a new array "
+                    "with a recycled id is served the old array's memmap file (workers see another array's data)", key=MR + "::_WeakArrayKeyMap::recycled ids")
+    ds = [a_ for a_ in ast.walk(s_) if isinstance(a_, ast.Assign) and isinstance(a_.targets[0], ast.Subscript) and dotted(a_.targets[0].value) == "self._data"]
+    gs = cfg_of(s_)
+    ctx.check(bool(ds) and gs.every_path_from([gs.entry], gs.nodes_of_all([d_ for d_ in ds if enclosing_func(d_) is s_]), None, skip_exc=True), ds[0] if ds else s_, "set() records the (reference, value) pair on every normal path",
+              "set() can return without recording the entry: the array is dumped again on every dispatch under a new name (or never found)")
+    if ds:
+        v = ds[0].value
+        ctx.check(isinstance(v, ast.Tuple) and len(v.elts) == 2 and dotted(v.elts[1]) == s_.args.args[2].arg, ds[0], "the value recorded is the one given")
     fw = ctx.repo.func(MR, "ArrayMemmapForwardReducer.__call__")
     gt = [c for c in calls_in(fw) if call_name(c) == "self._memmaped_arrays.get"]
     st = [c for c in calls_in(fw) if call_name(c) == "self._memmaped_arrays.set"]
